@@ -129,7 +129,7 @@ Definition pone_n (n : nat) : list Z := 1 :: zeros (n - 1).
 Definition sk_ext (n : nat) (sk : list (list Z)) (co : nat) : list Z :=
   match co with O => pone_n n | S i => nth i sk (pzero n) end.
 
-(* gadget product started from an accumulator that is not zeroed (cmux takes it from scratch): what it held in the limbs
-   j >= sz_r(0) survives iteration 0.  `clean` = those limbs are zero (vacuous for dsize <= 2, where sz_r(0) = msize). *)
-Definition res0_clean (n cols_out msize dsize : nat) (res0 : cols_t) : Prop :=
-  forall co j, (co < cols_out)%nat -> (sz_r msize dsize 0 <= j)%nat -> (j < msize)%nat -> lim (col res0 co) j = pzero n.
+(* shape of the prior accumulator content that Gadget.acc_start needs in the external-product mode (clamp = false):
+   cols_out columns of exactly msize limbs (the limbs themselves are arbitrary: they are zeroed); nothing in key-switch mode *)
+Definition acc_shape (cols_out msize : nat) (clamp : bool) (res0 : cols_t) : Prop :=
+  clamp = true \/ (length res0 = cols_out /\ forall co, (co < cols_out)%nat -> length (col res0 co) = msize).
